@@ -432,57 +432,7 @@ fn k_origin_a_assigned() {
     drop(o);
 }
 
-/// `get_or_insert_extra` on a derived origin, split by "the edge fits" / "does not fit" so that the
-/// allocation size is not symbolic.
-fn origin_insert_extra(fits: bool) {
-    let e = any_edge();
-    vk::assume(edge_fits(e) == fits);
-    let untracked: bool = vk::any();
-    let mut o = if untracked {
-        OriginAndExtra::derived_untracked([e].into_iter(), Default::default())
-    } else {
-        OriginAndExtra::derived([e].into_iter(), Default::default())
-    };
-    assert!(o.extra().is_none());
-    let cc: bool = vk::any();
-    o.get_or_insert_extra().cycle_converged = cc;
-    assert!(o.extra().unwrap().cycle_converged == cc);
-    assert!(o.is_derived_untracked() == untracked);
-    {
-        let edges = o.origin().edges();
-        let mut it = edges.iter();
-        assert!(it.next() == Some(e));
-        assert!(it.next().is_none());
-        assert!(matches!(edges.data, QueryEdgesData::Packed(_)) == fits);
-    }
-    // a second call must not rebuild or lose anything
-    let cc2 = o.get_or_insert_extra().cycle_converged;
-    assert!(cc2 == cc);
-    vcover!();
-    std::mem::forget(o);
-}
-
-//@ob id=K-ORIGIN-X1 kind=B bound=sequence-length=1 props=C25 timeout=900 fn=OriginAndExtra::get_or_insert_extra
-//@ pre: derived / derived-untracked origin without extra holding 1 symbolic edge that fits the compact encoding
-//@ post: extra inserted and writable; kind, edge and compact layout unchanged; idempotent
-#[cfg_attr(kani, kani::proof)]
-#[cfg_attr(kani, kani::unwind(4))]
-#[cfg_attr(salsa_verif_replay, test)]
-fn k_origin_x1_insert_extra_fits() {
-    origin_insert_extra(true);
-}
-
-//@ob id=K-ORIGIN-X2 kind=B bound=sequence-length=1 props=C25 timeout=900 fn=OriginAndExtra::get_or_insert_extra
-//@ pre: as K-ORIGIN-X1 with an edge that does not fit (wide layout)
-//@ post: as K-ORIGIN-X1 with the wide layout
-#[cfg_attr(kani, kani::proof)]
-#[cfg_attr(kani, kani::unwind(4))]
-#[cfg_attr(salsa_verif_replay, test)]
-fn k_origin_x2_insert_extra_wide() {
-    origin_insert_extra(false);
-}
-
-//@ob id=K-ORIGIN-C kind=B bound=sequence-length=1 props=C25,C02,C11 timeout=1200 fn=OriginAndExtra::clear_edges
+//@ob id=K-ORIGIN-C kind=B bound=sequence-length=1 props=C25,C11 timeout=1200 fn=OriginAndExtra::clear_edges
 //@ pre: derived / derived-untracked origin holding 1 symbolic edge, with or without extra data (symbolic cycle_converged, iteration)
 //@ post: no edges remain; origin kind kept; extra presence and contents kept
 #[cfg_attr(kani, kani::proof)]
@@ -550,4 +500,35 @@ fn k_token_1() {
         }
     }
     vcover!();
+}
+
+// ---------------------------------------------------------------------------------------------
+// Builders shared with the `function::*` harness modules.
+// ---------------------------------------------------------------------------------------------
+/// `QueryRevisions` with the given scalar state.
+pub(crate) fn revs(d: Durability, c: Revision, vf: bool, origin: OriginAndExtra) -> QueryRevisions {
+    QueryRevisions {
+        changed_at: c,
+        durability: d,
+        origin_and_extra: origin,
+        accumulated_inputs: Default::default(),
+        verified_final: AtomicBool::new(vf),
+    }
+}
+/// Extra data holding one cycle head (`head`, `stamp`) and iteration `stamp`.
+pub(crate) fn extra_with_head(head: DatabaseKeyIndex, stamp: IterationStamp) -> QueryRevisionsExtra {
+    QueryRevisionsExtra::new(Default::default(), ThinVec::new(), CycleHeads::initial(head, stamp), stamp, false)
+}
+/// Extra data that carries (empty) accumulated-values storage only when `force` is set.
+pub(crate) fn extra_forced() -> QueryRevisionsExtra {
+    QueryRevisionsExtra::new(Default::default(), ThinVec::new(), empty_cycle_heads().clone(), IterationStamp::default(), true)
+}
+pub(crate) fn empty_derived() -> OriginAndExtra {
+    OriginAndExtra::derived(std::iter::empty(), Default::default())
+}
+impl OriginAndExtra {
+    /// The stored edges (harness access to the private `origin()`).
+    pub(crate) fn verif_edges(&self) -> QueryEdges<'_> {
+        self.origin().edges()
+    }
 }
